@@ -1,3 +1,68 @@
+// slice `objective_eval`: how rapid_solve (pinned crate, 0.1.7) turns the hierarchy built by solver::objective::build
+// into the reported objective vector and how it orders two such vectors.  It discharges most of assumption A-lib of
+// slice `objective` ("Objective::evaluate computes each level as sum(coefficient * indicator) and ObjectiveValue
+// orders lexicographically").
+//   C04 "The four reported objective components equal an independent evaluation of the returned schedule": here the
+//       step "evaluate(s) IS the vector [unserved passengers, maintenance violation, vehicle count, costs] of s".
+//   C08 "... strictly improves the schedule in the lexicographic order unserved passengers, then maintenance violation,
+//       then vehicle count, then costs": here the step "ObjectiveValue::cmp IS that lexicographic order".
+// Verified verbatim (pinned crate source, src/objective/): `Ord::cmp` and `PartialOrd::partial_cmp` of ObjectiveValue
+// (objective_value.rs), `Ord::cmp` / `PartialOrd::partial_cmp` / `Add::add` / `Sum::sum` of BaseValue (base_value.rs),
+// both `Mul<BaseValue>` impls of Coefficient (coefficient.rs), LinearCombination::evaluate (linear_combination.rs),
+// Objective::evaluate (mod.rs), ObjectiveValue::new, EvaluatedSolution::new; closing lemmas lemma_reported_vector /
+// lemma_order_of_aggregates over these contracts and the verified postcondition of solver::objective::build.
+// The trait methods are emitted as inherent methods (a trait impl cannot carry `requires`: BaseValue::cmp panics on mixed
+// variants), except the operator impls (Mul, Add), whose preconditions are vstd's `mul_req` / `add_req`.
+//
+// ASSUMPTIONS introduced by this slice (env/objective_eval_shim.vs):
+//   A-std   core::cmp::Ordering::then_with (`match self { Equal => f(), o => o }`); Ordering::then (same text as
+//           env/ord_specs.vs; unused by the unchanged source, keeps an edit then_with -> then decidable).
+//   A-iter  shim iterator (env/seqiter.vs, R5) extended by `zip` (pairs until the shorter side ends; the argument's items
+//           are vstd's `remaining()` of the std slice iterator), `fold` (some trace acc_0 = init, acc_{k+1} = f(acc_k,
+//           item_k) exists and the last accumulator is returned; `f` is only called on such pairs), `rev` (unused by the
+//           unchanged source); `viter`, `map`, `collect`, `sum` as in env/seqiter.vs.  `Iterator::sum::<BaseValue>()` is
+//           `<BaseValue as Sum>::sum(iter)`: VSum<BaseValue> carries the contract under which the verbatim body of
+//           `Sum::sum` is verified (fragment base_value_sum: its generic `I: Iterator<Item = Self>` is instantiated with
+//           the shim iterator; skeleton pinned).
+//   A-dyn   (objective_shim) hand-declared trait `Indicator<S>` with precondition hook `ind_req`, axiom_dyn_*;
+//           NEW here: a call `indicator.evaluate(solution)` through `&Box<dyn Indicator<S>>` returns
+//           `dyn_eval_s(box, solution)` (extension trait BoxedIndicatorCall, external_body; it shadows the dyn call, whose
+//           hand-declared signature has no postcondition) and `dyn_eval_s` at S = ScheduleWithInfo is objective_shim's
+//           `dyn_eval` (axiom_dyn_eval_sched).
+//   A-im    im::HashMap::len (objective_shim, unused here).
+//   stubs   the four `Indicator::evaluate` impls of solver/src/objective.rs (verified in slice `objective` under the
+//           same contract text, R7a); needed only so that objective_shim's axioms type-check.
+//   Debug   R3 drops `derive(Debug)`; a no-op `Debug for BaseValue` outside `verus!` serves the `panic!("{:?}")` texts.
+//   What remains of A-lib: std's default `PartialOrd::lt` (`<` is `partial_cmp == Some(Less)`) used by rapid_solve's
+//           local-search improvers; the derived `Ord` of EvaluatedSolution; `PartialEq::eq` of ObjectiveValue
+//           (`self.cmp(other).is_eq()`) -- none of them under contract.
+//
+// PRECONDITIONS
+//   * every entry of both compared vectors is `BaseValue::Integer` (all four indicators of the solver return Integer:
+//     slice `objective`); the vectors may differ in length: the contract speaks about the common prefix (see Observation 1).
+//   * LinearCombination::evaluate / Objective::evaluate: `lc_req`: Integer coefficients, Integer indicator values, every
+//     product `c as i64 * x` and every partial sum fits i64 (Rust `*` / `+` on i64: panic in debug, wrap in release);
+//     for a level `1 * indicator` with an Integer value this holds unconditionally (lemma_single_unit_term); `ind_req`
+//     (A-dyn hook: the two unserved-passenger counters can be added in u32).
+//   * closing lemmas: `agg_fit`: unserved.0 + unserved.1 <= u32::MAX, vehicle count <= i64::MAX, costs <= i64::MAX
+//     (the `as i64` casts of slice `objective` are then exact).
+//
+// NOT covered: the Float / Duration / Maximum variants (BaseValue::cmp with tolerance, Coefficient::Float, `Zero` against a
+//   value in cmp) -- their match arms are type- and mode-checked by Verus but unreachable under the Integer preconditions;
+//   only `Zero + x` (start of `Sum`) is in scope.  Objective::{zero, maximum, print_*, objective_value_to_json},
+//   ObjectiveValue::{add, sub, mul}, Display.  That rapid_solve's local search only accepts `<` neighbours (C08 proper).
+//
+// OBSERVATIONS (rapid_solve 0.1.7, concrete inputs; none is reachable from solver::objective::build, whose vectors
+//   always have four Integer entries):
+//   1. ObjectiveValue::cmp zips, i.e. compares only the common prefix: cmp([Integer(1)], [Integer(1), Integer(5)]) ==
+//      Equal (and `==` is true), where the lexicographic order of sequences says Less.
+//   2. BaseValue::cmp panics on mixed variants: ObjectiveValue [Integer(1)] against [Float(1.0)] (or [Duration(..)]) panics
+//      with "Cannot compare ..".  `partial_cmp(..).unwrap()` itself never panics (partial_cmp is `Some(self.cmp(other))`);
+//      a NaN Float compares Equal to every Float (both tolerance tests are false), and the tolerance order is not
+//      transitive (0.0 ~ 0.00009 ~ 0.00018 but 0.0 < 0.00018).
+//   3. `Coefficient::Integer(c) * BaseValue::Integer(b)` is `c as i64 * b` and `Integer(a) + Integer(b)` is `a + b`: they
+//      overflow i64 for e.g. c = 2, b = i64::MAX (panic in debug builds, wrap-around in release builds);
+//      `Coefficient::Float(1.0) * BaseValue::Integer(16777217)` is Integer(16777216) (round trip through f32).
 #![feature(allocator_api)]
 use vstd::prelude::*;
 use std::ops::Add;
@@ -128,14 +193,14 @@ pub struct HashSet<T> { inner: std::collections::HashSet<T> }
 //@retname r
 //@sig
     requires *self is Integer, *other is Integer,
-    ensures r == int_cmp(ival(*self), ival(*other)),
-    decreases 0int,
+    ensures r == int_cmp(ival(*self), ival(*other)), // @obl C08.base_value.cmp_of_integers_is_the_integer_order
+    decreases 0int, // the recursive calls (Zero against a value) are unreachable for two Integers
 //@end
 //@item @rapid_solve/src/objective/base_value.rs traitfn BaseValue::partial_cmp
 //@retname r
 //@sig
     requires *self is Integer, *other is Integer,
-    ensures r == Some(int_cmp(ival(*self), ival(*other))),
+    ensures r == Some(int_cmp(ival(*self), ival(*other))), // @obl C08.base_value.partial_cmp_of_integers_is_some_integer_order
 //@end
 
 //@item @rapid_solve/src/objective/objective_value.rs traitfn ObjectiveValue::cmp
@@ -151,13 +216,20 @@ pub struct HashSet<T> { inner: std::collections::HashSet<T> }
 //@closure? then_with#0
     -> (o: core::cmp::Ordering)
     requires *value is Integer, *other_value is Integer,
-    ensures o == int_cmp(ival(*value), ival(*other_value)),
+    ensures o == int_cmp(ival(*value), ival(*other_value)) /* @obl C08.objective_value.cmp_compares_own_entry_against_other_entry */,
 //@first
         broadcast use lemma_cmp_fold_ok, lemma_cmp_fold_rel;
 //@sig
     requires all_integer(self.objective_vector@), all_integer(other.objective_vector@),
     ensures
-        lex_upto(self.objective_vector@, other.objective_vector@, if self.objective_vector@.len() <= other.objective_vector@.len() { self.objective_vector@.len() as int } else { other.objective_vector@.len() as int }, r), // @obl C08.objective_value.cmp_is_lexicographic
+        lex_upto(self.objective_vector@, other.objective_vector@, common_len(self.objective_vector@, other.objective_vector@), r), // @obl C08.objective_value.cmp_is_lexicographic
+//@end
+//@item @rapid_solve/src/objective/objective_value.rs traitfn ObjectiveValue::partial_cmp
+//@retname r
+//@sig
+    requires all_integer(self.objective_vector@), all_integer(other.objective_vector@),
+    ensures
+        r is Some && lex_upto(self.objective_vector@, other.objective_vector@, common_len(self.objective_vector@, other.objective_vector@), r->Some_0), // @obl C08.objective_value.partial_cmp_is_some_lexicographic_cmp
 //@end
 
 // ---- Coefficient * BaseValue and BaseValue + BaseValue (contracts: MulSpecImpl / AddSpecImpl of the shim) -----
@@ -180,7 +252,7 @@ pub struct HashSet<T> { inner: std::collections::HashSet<T> }
     -> (o: BaseValue) requires bv_add_req(a, b), ensures o == bv_add(a, b),
 //@sig
     requires bv_sum_req(iter@),
-    ensures r == bv_sum(iter@),
+    ensures r == bv_sum(iter@), // @obl C04.base_value.sum_is_the_left_fold_of_add_from_zero
 //@first
         broadcast use lemma_sum_fold_ok, lemma_sum_fold_rel;
 //@end
@@ -281,7 +353,7 @@ pub open spec fn cmp_pre(x: ObjectiveValue, y: ObjectiveValue) -> bool {
     all_integer(x.objective_vector@) && all_integer(y.objective_vector@)
 }
 pub open spec fn cmp_post(x: ObjectiveValue, y: ObjectiveValue, r: Ordering) -> bool {
-    lex_upto(x.objective_vector@, y.objective_vector@, if x.objective_vector@.len() <= y.objective_vector@.len() { x.objective_vector@.len() as int } else { y.objective_vector@.len() as int }, r)
+    lex_upto(x.objective_vector@, y.objective_vector@, common_len(x.objective_vector@, y.objective_vector@), r)
 }
 /// each level of the built objective can be evaluated on s and its value is the aggregate of that position
 pub proof fn lemma_built_level(o: Objective<ScheduleWithInfo>, s: ScheduleWithInfo, k: int)
